@@ -31,6 +31,7 @@ RULE = ('case = (temp-file-creating recipe or stack: sort in all modes, every '
         'held, then release of everything). Non-trivial: the solo reference '
         'did not raise and at least one temp file existed in the sandbox at '
         'some step. Distinct: by digest of the whole case.')
+STATES = 'recipe stack x maximum number of temp files seen (capped at 6)'
 COMPONENTS = {
     'real': ['petl SortView/_NamedTempFileDeleteOnGC/DictsGeneratorView and '
              'all sort-backed operators', 'pickle', 'real files in a private '
